@@ -294,6 +294,9 @@ type Config struct {
 	NoAuth       bool
 	UDPListeners []*net.UDPAddr
 	TCPListeners []*net.TCPAddr
+	// MakeGen, when set, supplies the relay address generator (e.g. one of pion/turn's bundled
+	// generators over a simnet.VNet) instead of the harness' ledger generator.
+	MakeGen func(n *simnet.Net) turn.RelayAddressGenerator
 	// DenyPeerIPs are refused by the permission handler for every client.
 	DenyPeerIPs []string
 	// DenyPerClient refuses peer IPs for specific client addresses ("ip:port" -> peer IPs).
@@ -335,6 +338,8 @@ type World struct {
 	EventDelay map[string]time.Duration
 	// OnEvent is called inside each lifecycle callback after recording.
 	OnEvent func(ev LifeEvent)
+	// OnEventStart is called inside each lifecycle callback before it turns slow (EventDelay).
+	OnEventStart func(ev LifeEvent)
 	// PermHook/AuthHook are called inside the handlers (yield points).
 	PermHook          func()
 	AuthHook          func()
@@ -366,8 +371,12 @@ func (w *World) event(ev LifeEvent) {
 	w.events = append(w.events, ev)
 	d := w.EventDelay[ev.Kind]
 	cb := w.OnEvent
+	cb0 := w.OnEventStart
 	w.callbacksInFlight++
 	w.mu.Unlock()
+	if cb0 != nil {
+		cb0(ev)
+	}
 	if d > 0 {
 		// In the virtual-time bubble a callback may only sleep where the library holds no mutex:
 		// a goroutine waiting for that mutex is not durably blocked, so the virtual clock would
@@ -387,6 +396,13 @@ func (w *World) event(ev LifeEvent) {
 	}
 	w.mu.Lock()
 	w.callbacksInFlight--
+	w.mu.Unlock()
+}
+
+// SetOnEventStart installs (or clears) the OnEventStart callback.
+func (w *World) SetOnEventStart(f func(ev LifeEvent)) {
+	w.mu.Lock()
+	w.OnEventStart = f
 	w.mu.Unlock()
 }
 
@@ -519,6 +535,10 @@ func NewWorld(cfg Config, rec *Rec, rng *rand.Rand, bubble bool) (*World, error)
 		}
 	}
 
+	var gen turn.RelayAddressGenerator = w.Gen
+	if cfg.MakeGen != nil {
+		gen = cfg.MakeGen(w.Net)
+	}
 	for _, a := range cfg.UDPListeners {
 		c, err := w.Net.ListenUDP(a.IP, a.Port)
 		if err != nil {
@@ -527,7 +547,7 @@ func NewWorld(cfg Config, rec *Rec, rng *rand.Rand, bubble bool) (*World, error)
 		w.ServerUDP = append(w.ServerUDP, c)
 		w.serverSocks[c] = true
 		sc.PacketConnConfigs = append(sc.PacketConnConfigs, turn.PacketConnConfig{
-			PacketConn: c, RelayAddressGenerator: w.Gen, PermissionHandler: permHandler,
+			PacketConn: c, RelayAddressGenerator: gen, PermissionHandler: permHandler,
 		})
 	}
 	for _, a := range cfg.TCPListeners {
@@ -537,7 +557,7 @@ func NewWorld(cfg Config, rec *Rec, rng *rand.Rand, bubble bool) (*World, error)
 		}
 		w.ServerTCP = append(w.ServerTCP, l)
 		sc.ListenerConfigs = append(sc.ListenerConfigs, turn.ListenerConfig{
-			Listener: l, RelayAddressGenerator: w.Gen, PermissionHandler: permHandler,
+			Listener: l, RelayAddressGenerator: gen, PermissionHandler: permHandler,
 		})
 	}
 	srv, err := turn.NewServer(sc)
